@@ -127,6 +127,7 @@ let show_call c =
   | Exists a -> "?exists(" ^ p a ^ ")"
   | IsDir a -> "?isdir(" ^ p a ^ ")"
   | OpenR a -> "?openr(" ^ p a ^ ")"
+  | LExists a -> "?lexists(" ^ p a ^ ")"
 
 let show_view s q =
   match s.names q with
